@@ -58,6 +58,24 @@ def main():
     env["PYTHONPATH"] = f"{wt}/src"
     meta = {"property": prop, "needs": needs, "ran": {}, "checks": {}}
     sh("git checkout -- .", cwd=wt)
+    if "--suite-only" in sys.argv:
+        # second phase for a change whose demo/check runs were recorded with --skip-suite
+        d = f"/verif/seeded/{seed_id}"
+        meta = json.load(open(f"{d}/meta.json"))
+        a = sh(f"git apply {diff}", cwd=wt)
+        if a.returncode != 0:
+            print("diff does not apply:", a.stderr)
+            sys.exit(2)
+        try:
+            missing = suite(wt)
+        finally:
+            sh("git checkout -- .", cwd=wt)
+        meta["ran"]["baseline_with_change"] = {"stable_tests_missing": len(missing), "examples": missing[:5]}
+        meta["confirmed"] = (meta["ran"]["demo_on_clean_tree"]["exit"] == 0 and meta["ran"]["demo_with_change"]["exit"] != 0
+                             and not missing)
+        json.dump(meta, open(f"{d}/meta.json", "w"), indent=1)
+        print(seed_id, "suite: missing", len(missing), missing[:5], "confirmed:", meta["confirmed"])
+        return
     r = sh(f"/venv/bin/python {demo}", cwd=wt, env=env, timeout=900)
     meta["ran"]["demo_on_clean_tree"] = {"exit": r.returncode, "tail": r.stdout[-200:]}
     a = sh(f"git apply {diff}", cwd=wt)
